@@ -56,9 +56,9 @@ func init() {
 		ID:    "C11",
 		Title: "URLSanitized returns its input or the innocuous URL, and never a javascript: URL",
 		Harnesses: []HarnessSpec{
-			{Pkg: "safehtml", Name: "vHarness_C11_sound", Quick: []ParamRange{{"ascii", 1, 1}, {"n", 0, 16}}, Thorough: []ParamRange{{"ascii", 1, 1}, {"n", 0, 24}}, Reach: []string{"accepted", "rejected"},
+			{Pkg: "safehtml", Name: "vHarness_C11_sound", Quick: []ParamRange{{"ascii", 1, 1}, {"n", 0, 16}}, Thorough: []ParamRange{{"ascii", 1, 1}, {"n", 0, 20}}, Reach: []string{"accepted", "rejected"},
 				Desc: "ASCII regime: out in {s, innocuous}; out == s => WHATWG scheme scanner finds no javascript scheme and no '&' before the scheme decision point"},
-			{Pkg: "safehtml", Name: "vHarness_C11_sound", Quick: []ParamRange{{"ascii", 0, 0}, {"n", 0, 4}}, Thorough: []ParamRange{{"ascii", 0, 0}, {"n", 0, 6}},
+			{Pkg: "safehtml", Name: "vHarness_C11_sound", Quick: []ParamRange{{"ascii", 0, 0}, {"n", 0, 4}}, Thorough: []ParamRange{{"ascii", 0, 0}, {"n", 0, 5}},
 				Desc: "general regime (arbitrary bytes, invalid UTF-8, U+0130, U+212A, ...): same obligations"},
 			{Pkg: "safehtml", Name: "vHarness_C11_padded", Quick: []ParamRange{{"space", 0, 0}, {"nh", 4, 4}, {"nt", 7, 7}, {"k", 0, 140}}, Thorough: []ParamRange{{"space", 0, 0}, {"nh", 0, 10}, {"nt", 1, 11}, {"k", 0, 300}},
 				Filter: func(p map[string]int) bool {
@@ -293,7 +293,7 @@ func init() {
 		Harnesses: []HarnessSpec{
 			{Pkg: "template", Name: "vHarness_C02_joinprefix", Quick: []ParamRange{{"ctx", 0, 2}, {"flagb", 0, 1}, {"flaga", 0, 1}, {"na", 0, 2}, {"nb", 0, 2}}, Thorough: []ParamRange{{"ctx", 0, 2}, {"flagb", 0, 1}, {"flaga", 0, 1}, {"na", 0, 3}, {"nb", 0, 3}}, Reach: []string{"ambiguous"},
 				Desc: "static URL prefixes chosen by (nested) branches: after join the prefix is recorded as ambiguous whichever side carried the ambiguity, and an action after it is refused"},
-			{Pkg: "template", Name: "vHarness_C14_prefix", Quick: []ParamRange{{"ctx", 0, 5}, {"amp", -1, -1}, {"np", 1, 8}}, Thorough: []ParamRange{{"ctx", 0, 5}, {"amp", -1, -1}, {"np", 1, 10}}, Reach: []string{"accepted", "rejected"},
+			{Pkg: "template", Name: "vHarness_C14_prefix", Quick: []ParamRange{{"ctx", 0, 5}, {"amp", -1, -1}, {"np", 1, 8}}, Thorough: []ParamRange{{"ctx", 0, 5}, {"amp", -1, -1}, {"np", 1, 9}}, Reach: []string{"accepted", "rejected"},
 				Desc: "prefixes without '&' in 6 URL contexts: accepted => no whitespace/control, no partial percent escape, scheme decided and not javascript (per WHATWG scanner), '/?#' or complete scheme present"},
 			{Pkg: "template", Name: "vHarness_C14_prefix", Quick: []ParamRange{{"ctx", 0, 3}, {"amp", 0, 0}, {"np", 1, 4}}, Thorough: []ParamRange{{"ctx", 0, 3}, {"amp", 0, 1}, {"np", 1, 5}},
 				Filter: func(p map[string]int) bool { return (p["ctx"] == 0 || p["ctx"] == 3) && ampOK(p) },
@@ -301,10 +301,10 @@ func init() {
 			{Pkg: "template", Name: "vHarness_C14_prefix", Quick: []ParamRange{{"ctx", 0, 0}, {"amp", -3, -3}, {"np", 4, 6}}, Thorough: []ParamRange{{"ctx", 0, 3}, {"amp", -2, -2}, {"np", 3, 7}},
 				Filter: func(p map[string]int) bool { return p["ctx"] == 0 || p["ctx"] == 3 },
 				Desc: "prefix is one complete character reference &X;"},
-			{Pkg: "template", Name: "vHarness_C14_prefix", Quick: []ParamRange{{"ctx", 0, 3}, {"amp", -5, -4}, {"k", 1, 3}, {"np", 5, 8}}, Thorough: []ParamRange{{"ctx", 0, 3}, {"amp", -5, -4}, {"k", 1, 4}, {"np", 5, 10}},
+			{Pkg: "template", Name: "vHarness_C14_prefix", Quick: []ParamRange{{"ctx", 0, 3}, {"amp", -5, -4}, {"k", 1, 3}, {"np", 5, 8}}, Thorough: []ParamRange{{"ctx", 0, 3}, {"amp", -5, -4}, {"k", 1, 4}, {"np", 5, 9}},
 				Filter: func(p map[string]int) bool { return (p["ctx"] == 0 || p["ctx"] == 3) && p["np"]-p["k"] >= 4 && p["np"]-p["k"] <= 6 },
 				Desc: "a decimal character reference with k symbolic bytes before (-4) or after (-5) it"},
-			{Pkg: "template", Name: "vHarness_C14_data", Quick: []ParamRange{{"ctx", 0, 5}, {"amp", -1, -1}, {"np", 1, 4}, {"nd", 0, 2}}, Thorough: []ParamRange{{"ctx", 0, 5}, {"amp", -1, -1}, {"np", 1, 6}, {"nd", 0, 3}},
+			{Pkg: "template", Name: "vHarness_C14_data", Quick: []ParamRange{{"ctx", 0, 5}, {"amp", -1, -1}, {"np", 1, 4}, {"nd", 0, 2}}, Thorough: []ParamRange{{"ctx", 0, 5}, {"amp", -1, -1}, {"np", 1, 5}, {"nd", 0, 2}},
 				Filter: func(p map[string]int) bool { return p["ctx"] != 1 && p["ctx"] != 2 }, Reach: []string{"tru", "query", "path"},
 				Desc: "accepted prefix without '&' + data: TrustedResourceURL contexts fully percent-encode and reject '..'; query/fragment prefixes fully percent-encode; otherwise reference normalisation + HTML escaping; no '..' segment with data-derived bytes"},
 			{Pkg: "template", Name: "vHarness_C14_data", Quick: []ParamRange{{"ctx", 0, 0}, {"amp", -3, -3}, {"np", 4, 6}, {"nd", 1, 2}}, Thorough: []ParamRange{{"ctx", 0, 0}, {"amp", -2, -2}, {"np", 3, 7}, {"nd", 1, 2}},
@@ -336,7 +336,7 @@ func init() {
 		Title: "Safe-type values bypass sanitization only in their own context; attribute values are escaped",
 		Harnesses: []HarnessSpec{
 			{Pkg: "template", Name: "vHarness_C03_matrix", Quick: []ParamRange{{"single", 0, 0}, {"type", 0, 6}, {"ind", 0, 2}, {"ctx", 0, 23}, {"n", 0, 2}},
-				Thorough: []ParamRange{{"single", 0, 1}, {"type", 0, 6}, {"ind", 0, 2}, {"ctx", 0, 23}, {"n", 0, 4}}, Reach: []string{"bypass", "foreign"},
+				Thorough: []ParamRange{{"single", 0, 1}, {"type", 0, 6}, {"ind", 0, 2}, {"ctx", 0, 23}, {"n", 0, 3}}, Reach: []string{"bypass", "foreign"},
 				Filter: func(p map[string]int) bool { return p["single"] == 0 || p["n"] <= 2 },
 				Desc: "7 safe types x {T, *T, **T} x 24 contexts, contents symbolic: outside the type's own context the chain treats the value exactly like the plain string (same output, same error-or-not); attribute output is HTML-escaped"},
 		},
@@ -478,7 +478,7 @@ func init() {
 				Thorough: []ParamRange{{"kind", 0, 1}, {"prefix", 0, 11}, {"n0", 0, 1}, {"n1", 0, 3}, {"n2", 0, 2}, {"n3", 0, 1}, {"n4", 0, 1}, {"nd", 1, 1}}, Reach: []string{"rejected"}, Eager: true,
 				Desc: "loop exits: P T0 {{range .}}T1{{if .}}{{break|continue}}{{end}}T2{{end}} T3 {{.}} T4 - the escaper refuses the node (panic, nothing executed) or the output after an early exit has the same token stream for an inert and a symbolic data value"},
 			{Pkg: "template", Name: "vHarness_C01_call", Quick: []ParamRange{{"prefix", 0, 6}, {"rec", 0, 1}, {"mid", 0, 1}, {"twice", 0, 1}, {"n0", 0, 0}, {"n1", 0, 1}, {"n2", 0, 1}, {"n5", 0, 1}, {"n6", 0, 0}, {"n3", 0, 0}, {"n4", 0, 2}, {"nd", 1, 1}},
-				Thorough: []ParamRange{{"prefix", 0, 6}, {"rec", 0, 1}, {"mid", 0, 1}, {"twice", 0, 1}, {"n0", 0, 1}, {"n1", 0, 2}, {"n2", 0, 2}, {"n5", 0, 1}, {"n6", 0, 0}, {"n3", 0, 1}, {"n4", 0, 2}, {"nd", 1, 1}}, Reach: []string{"accepted", "rejected"}, Eager: true,
+				Thorough: []ParamRange{{"prefix", 0, 6}, {"rec", 0, 1}, {"mid", 0, 1}, {"twice", 0, 1}, {"n0", 0, 0}, {"n1", 0, 2}, {"n2", 0, 2}, {"n5", 0, 1}, {"n6", 0, 0}, {"n3", 0, 1}, {"n4", 0, 2}, {"nd", 1, 1}}, Reach: []string{"accepted", "rejected"}, Eager: true,
 				Filter: func(p map[string]int) bool {
 					return (p["mid"] == 0 || (p["prefix"] >= 2 && p["prefix"] <= 4)) && (p["twice"] == 0 || p["mid"] == 0) && p["n0"]+p["n1"]+p["n2"]+p["n5"]+p["n3"]+p["n4"] <= 4
 				},
@@ -492,7 +492,7 @@ func init() {
 					return p["n1"]+p["n2"]+p["n5"]+p["n6"]+p["n3"]+p["n4"] <= 4 && (p["mid"] != 1 || (p["prefix"] >= 2 && p["prefix"] <= 4)) && (p["mid"] != 2 || p["prefix"] <= 1)
 				},
 				Desc: "mutual recursion: y = T1 {{if}}{{template z}}{{end}} T2 M T5 and z = {{template y}} T6 (the fixed-point rule has to see the indirect self-call)"},
-			{Pkg: "template", Name: "vHarness_C01_shape", Quick: []ParamRange{{"prefix", 0, 11}, {"n0", 0, 1}, {"n1", 0, 1}, {"n2", 0, 1}, {"n3", 0, 1}, {"n4", 1, 1}, {"nd", 1, 1}},
+			{Pkg: "template", Name: "vHarness_C01_shape", Quick: []ParamRange{{"prefix", 0, 12}, {"n0", 0, 1}, {"n1", 0, 1}, {"n2", 0, 1}, {"n3", 0, 1}, {"n4", 1, 1}, {"nd", 1, 1}},
 				Thorough: []ParamRange{{"prefix", 0, 11}, {"n0", 0, 1}, {"n1", 0, 2}, {"n2", 0, 1}, {"n3", 0, 2}, {"n4", 0, 2}, {"nd", 1, 2}}, Reach: []string{"accepted", "rejected"}, Eager: true,
 				Filter: func(p map[string]int) bool { return p["n0"]+p["n1"]+p["n2"]+p["n3"]+p["n4"] <= 4+2-p["nd"] },
 				Desc: "composition: the real escapeList / escapeBranch / join / escapeAction / escapeText over a hand-built tree P T0 {{if}}T1{{else}}T2{{end}} T3 {{.}} T4 with symbolic ASCII texts; the assembled output of both branches has the same token stream for an inert and a symbolic data value"},
@@ -562,7 +562,7 @@ func init() {
 			{Pkg: "template", Name: "vHarness_C08_history", Quick: []ParamRange{{"prefix", 0, 9}, {"n0", 0, 1}, {"n1", 0, 2}, {"n2", 0, 2}, {"n3", 0, 2}}, Thorough: []ParamRange{{"prefix", 0, 11}, {"n0", 0, 1}, {"n1", 0, 2}, {"n2", 0, 2}, {"n3", 0, 2}}, Reach: []string{"analysed", "failed", "caller-analysed", "derived-analysed"},
 				Filter: func(p map[string]int) bool { return p["n2"] == 0 || p["n3"] == 0 },
 				Desc: "bounded call histories: two calls chosen symbolically among lookupAndEscapeTemplate(main | incomplete | undefined), escape() and Lookup over a hand-built set with symbolic ASCII texts: every call returns, the name-space mutex is free afterwards (a second Lock on a held mutex is reported as a deadlock), a failed analysis stays failed and drops the parse tree"},
-			{Pkg: "template", Name: "vHarness_C08_text", Quick: []ParamRange{{"elem", 0, 8}, {"attr", 0, 1}, {"n", 0, 3}}, Thorough: []ParamRange{{"elem", 0, 8}, {"attr", 0, 5}, {"n", 0, 5}}, Reach: []string{"ran"},
+			{Pkg: "template", Name: "vHarness_C08_text", Quick: []ParamRange{{"elem", 0, 8}, {"attr", 0, 1}, {"n", 0, 3}}, Thorough: []ParamRange{{"elem", 0, 8}, {"attr", 0, 3}, {"n", 0, 4}}, Reach: []string{"ran"},
 				Filter: func(p map[string]int) bool {
 					e := p["elem"]
 					return (e == 0 || e == 1 || e == 4 || e == 6 || p["n"] <= 2) && (p["n"] <= 4 || (e == 4 && p["attr"] == 0))
